@@ -171,6 +171,8 @@ def make_harness(K: int, first_op: str | None):
         reset_all()
         ops = _ops()
         names = list(ops)
+        # thorough: the third operation comes from the operations that create, unregister or re-create nodes
+        THIRD = [n for n in names if n.startswith(("transform", "duplicate", "replace", "dataclasses", "detach", "roundtrip", "as_obj", "from_json", "eq", "rich", "tree-queries", "findall"))]
         tno = e.choice(len(TREES), "tree")
         root = build(TREES[tno])
         paths = positions_of(TREES[tno])
@@ -181,7 +183,8 @@ def make_harness(K: int, first_op: str | None):
         history: list[str] = []
         scenario: dict[str, Any] = {"tree": describe(TREES[tno]), "history": history}
         for step in range(K):
-            op = first_op if (step == 0 and first_op) else e.pick(names, f"op{step}")
+            pool = names if (K < 3 or step < 2) else THIRD
+            op = first_op if (step == 0 and first_op) else e.pick(pool, f"op{step}")
             p = paths[e.choice(len(paths), f"target{step}")]
             node = node_at(root, p)
             before = _snapshot(existing)
@@ -235,7 +238,7 @@ def spec(tier: str, seed: int) -> Spec:
     return Spec(
         families=fams,
         functions=FUNCTIONS,
-        bounds={"history_length": K, "operations": names, "trees": len(TREES), "classes_for_setattr": len(CLASSES)},
+        bounds={"history_length": f"{K} (thorough: the third operation from the node-creating / unregistering / comparing operations)" if K == 3 else K, "operations": names, "trees": len(TREES), "classes_for_setattr": len(CLASSES)},
         rule="a case = (tree, K operations each with a target node); after every operation every pre-existing node (including nodes created by earlier operations) is compared with its snapshot; distinct by (tree, history)",
         variables="selectors only (bounded exploration of operation histories)",
         assumptions=["registry membership is excluded from the frame, as the statement allows"],
